@@ -101,11 +101,11 @@ def gen(tier, rng):
                     meta={"family": "termination", "cls": cls})
     # inputs that begin with a long run of 0x00 / 0xFF (the one-shot path writes those runs with a dedicated routine whose output-space guard is
     # arithmetic on the run length): avail_out swept from 0 to past the size actually needed
-    for run, tail in ((100000, 0), (40000, 40), (4096, 50)) + (((1 << 20, 0), (300000, 0)) if tier == "thorough" else ()):
+    for run, tail in ((100000, 0), (40000, 40), (4096, 50)) + (((300000, 0),) if tier == "thorough" else ()):
         for byte in (0, 255):
             inp = [byte] * run + igz.corpus(rng, "text", tail)
             top = 160 + run // 1000 + tail * 2
-            for ao in range(0, top, 3 if tier == "quick" else 1):
+            for ao in range(0, top, 3 if tier == "quick" else (8 if run > 100000 else 1)):
                 add(api="deflate_stateless", inp=inp, level=(ao + run) % 4, wrap=[0, 1, 3, 2, 4][ao % 5], lbuf=3, calls=[[len(inp), ao, 0, 1]], meta={"family": "oneshot-constant-run-sweep", "cls": "constant", "bound": bound(len(inp), [0, 1, 3, 2, 4][ao % 5])})
     return scns
 
